@@ -147,6 +147,7 @@ type c06Route struct {
 	Filters  []int // behaviours
 	Produces string
 	Idx      int
+	Reuse    bool // built from the RouteBuilder of the route before it (used again with another path and further filters)
 }
 type c06Svc struct {
 	Root    string
@@ -206,8 +207,18 @@ func buildC06(cfg *c06Config) *restful.Container {
 				ws.Filter(mkFilter(n, s.Filters[i]))
 			}
 		}
+		var rb *restful.RouteBuilder
 		for _, r := range s.Routes {
-			rb := ws.GET(r.Path).To(func(req *restful.Request, resp *restful.Response) {
+			if r.Reuse {
+				// the builder of the previous route goes on: another path, further filters behind the ones it already carries
+				rb.Path(r.Path)
+				for i, n := range names(fmt.Sprintf("R%d", r.Idx), r.Filters) {
+					rb.Filter(mkFilter(n, r.Filters[i]))
+				}
+				ws.Route(rb)
+				continue
+			}
+			rb = ws.GET(r.Path).To(func(req *restful.Request, resp *restful.Response) {
 				fLogOf(req.Request).add("enter", "H", tupleOf(req, resp))
 				if req.Request.Header.Get("X-Panic") == "H" {
 					panic("handler panic")
@@ -376,7 +387,7 @@ func genBehs(r *core.Rand, max int) []int {
 
 func c06(ctx *core.Ctx) {
 	quietLogs()
-	ctx.Rule("generated configurations: 0-5 container filters (now and then 9, 17, 33 or 65 at a level), two WebServices with 0-3 service filters, two routes and a pair of representation twins (same method and path, JSON vs XML) with 0-3 route filters each, every filter named after its owner, behaviour per filter in {pass, set attribute, replace Request, replace Response, replace http.Request (derived or on a fresh context), HttpMiddlewareHandlerToFilter around a wrapping middleware, set ResponseWriter}; any filter short-circuits on demand of the request; service / container filters registered before or after the routes / services; handlers that panic (recovery on: nothing in the chain may run a second time). 40-request sequences (routed, 404/405 routing failures, HandleWithFilter) run sequentially on one container and then from 16 (every 5th configuration: 70) goroutines (race detector on). Offline checker per request: exact enter/pass/exit sequence = prefix of [container.., service.., route.., handler] with reversed exits, each once, hand-over identity of (Request, Response, http.Request, writer, attributes). Non-trivial = a request whose chain has >= 2 elements; distinct by (filter counts per level, short-circuit position, request kind, behaviours on the path).")
+	ctx.Rule("generated configurations: 0-5 container filters (now and then 9, 17, 33 or 65 at a level), two WebServices with 0-3 service filters, two routes and a pair of representation twins (same method and path, JSON vs XML) with 0-3 route filters each, now and then two routes built from one reused RouteBuilder (the second inherits the first one's filters), every filter named after its owner, behaviour per filter in {pass, set attribute, replace Request, replace Response, replace http.Request (derived or on a fresh context), HttpMiddlewareHandlerToFilter around a wrapping middleware, set ResponseWriter}; any filter short-circuits on demand of the request; service / container filters registered before or after the routes / services; handlers that panic (recovery on: nothing in the chain may run a second time). 40-request sequences (routed, 404 and 405 routing failures with POST/HEAD/PUT/DELETE/PATCH, HandleWithFilter) run sequentially on one container and then from 16 (every 5th configuration: 70) goroutines (race detector on). Offline checker per request: exact enter/pass/exit sequence = prefix of [container.., service.., route.., handler] with reversed exits, each once, hand-over identity of (Request, Response, http.Request, writer, attributes). Non-trivial = a request whose chain has >= 2 elements; distinct by (filter counts per level, short-circuit position, request kind, behaviours on the path).")
 	ctx.Assume("a filter that replaces the Request copies the attributes it knows about (the API offers no enumeration)")
 	configs := ctx.N(250, 20000)
 	for ci := 0; ci < configs; ci++ {
@@ -396,6 +407,11 @@ func c06(ctx *core.Ctx) {
 			for _, m := range []string{restful.MIME_JSON, restful.MIME_XML} {
 				s.Routes = append(s.Routes, c06Route{Path: "/tw", Filters: genBehs(r, 3), Produces: m, Idx: ridx})
 				ridx++
+			}
+			if r.Chance(1, 3) {
+				// a RouteBuilder used for two routes: the second inherits the filters of the first and adds its own
+				s.Routes = append(s.Routes, c06Route{Path: "/ru", Filters: genBehs(r, 3), Idx: ridx}, c06Route{Path: "/ru2", Filters: genBehs(r, 3), Idx: ridx + 1, Reuse: true})
+				ridx += 2
 			}
 			cfg.Svcs = append(cfg.Svcs, s)
 		}
@@ -427,15 +443,21 @@ func c06(ctx *core.Ctx) {
 			var chain []string
 			switch k := r.Intn(10); {
 			case k < 6:
-				si, ri := r.Intn(2), r.Intn(4)
+				si := r.Intn(2)
 				s := cfg.Svcs[si]
+				ri := r.Intn(len(s.Routes))
 				rq.Path = fmt.Sprintf("%s%s", s.Root, s.Routes[ri].Path)
 				rq.Kind = "routed"
 				if s.Routes[ri].Produces != "" {
 					rq.Kind = "routed-twin"
 					rq.Accept = s.Routes[ri].Produces
 				}
-				chain = append(append(append([]string{}, cn...), names(fmt.Sprintf("S%d", si), s.Filters)...), names(fmt.Sprintf("R%d", s.Routes[ri].Idx), s.Routes[ri].Filters)...)
+				chain = append(append([]string{}, cn...), names(fmt.Sprintf("S%d", si), s.Filters)...)
+				if s.Routes[ri].Reuse {
+					chain = append(chain, names(fmt.Sprintf("R%d", s.Routes[ri-1].Idx), s.Routes[ri-1].Filters)...)
+					ctx.Count("requests_to_routes_of_a_reused_builder", 1)
+				}
+				chain = append(chain, names(fmt.Sprintf("R%d", s.Routes[ri].Idx), s.Routes[ri].Filters)...)
 				rq.Expect = append(append([]string{}, chain...), "H")
 			case k < 7:
 				rq.Path = fmt.Sprintf("/f%d/nope", r.Intn(2))
@@ -450,7 +472,7 @@ func c06(ctx *core.Ctx) {
 				rq.Expect = append(append([]string{}, chain...), "E")
 			case k < 9:
 				rq.Path = fmt.Sprintf("/f%d/r%d", r.Intn(2), r.Intn(2))
-				rq.Method = "POST"
+				rq.Method = r.Pick([]string{"POST", "HEAD", "PUT", "DELETE", "PATCH"})
 				rq.Kind = "405"
 				chain = cn
 				rq.Expect = append(append([]string{}, chain...), "E")
